@@ -234,6 +234,68 @@ func (ch c14) runStreamF(c *core.Ctx, env *hs.Env, t c14table, stream []byte, cu
 	return obs, true
 }
 
+// runStreamCancel delivers the stream piece by piece in lock-step; the handler gives every Read a context
+// of its own and the client cancels the one in flight after every piece (a per-row deadline that passes
+// while the rest of the row is on its way) - the handler then simply reads again.
+func (ch c14) runStreamCancel(c *core.Ctx, env *hs.Env, t c14table, stream []byte, cuts []int, cs any) (obs c14obs, ok bool) {
+	cols := wire.Columns{}
+	for j, o := range t.OIDs {
+		cols = append(cols, wire.Column{Name: fmt.Sprintf("c%d", j), Oid: oid.Oid(o), Width: -1})
+	}
+	plan := &hs.CopyPlan{Format: wire.BinaryFormat, MaxReads: -1, OnErr: "propagate", Binary: true, RowCtx: true}
+	sess := &hs.Sess{Progs: map[string]*hs.Prog{"copy": {Stmts: []*hs.Stmt{{ID: "copy", Cols: cols, Ops: []hs.Op{{K: "copy", Copy: plan}}}}}}}
+	cl := hs.NewClient(env.Dial(sess))
+	if err := cl.StartupOK("u"); err != nil {
+		c.Violate("startup", "startup failed", err.Error(), cs)
+		return obs, false
+	}
+	var out []byte
+	step := func(in []byte) bool {
+		o, _ := cl.Step(in)
+		out = append(out, o...)
+		return !hangCheck(c, cl, cs)
+	}
+	if !step(pg.Query("copy")) {
+		return obs, false
+	}
+	prev := 0
+	for _, k := range append(append([]int{}, cuts...), len(stream)) {
+		if k <= prev || k > len(stream) {
+			continue
+		}
+		if !step(pg.CopyData(stream[prev:k])) {
+			return obs, false
+		}
+		prev = k
+		if sess.CancelRead() {
+			c.Count("reads_cancelled_while_waiting", 1)
+		}
+	}
+	if !step(append(pg.CopyDone(), pg.Sync()...)) {
+		return obs, false
+	}
+	msgs, err := parseAll(out)
+	if err != nil {
+		c.Violate("grammar", "reply not well-formed", err.Error(), cs)
+		return obs, false
+	}
+	obs.Reply, obs.End = pg.Types(msgs), "none"
+	for _, e := range cl.C.Events() {
+		if e.Kind == "cb" && e.Name == "copyread" {
+			switch r := e.Data.(hs.CopyRec); {
+			case r.ErrNil:
+				obs.Rows = append(obs.Rows, r.Row)
+			case r.EOF:
+				obs.End = "eof"
+			default:
+				obs.End, obs.ErrTxt = "error", r.Err
+			}
+		}
+	}
+	cl.Finish()
+	return obs, true
+}
+
 func c14rowEq(oids []uint32, got, want []any) string {
 	if len(got) != len(want) {
 		return fmt.Sprintf("row has %d fields, sent %d", len(got), len(want))
@@ -404,6 +466,27 @@ func (ch c14) Run(c *core.Ctx) {
 		// cuts at row boundaries only, with empty messages interleaved
 		if !run(rowEnds, true, "row-aligned with empty messages") {
 			continue
+		}
+		// lock-step pieces, the Read in flight cancelled after every piece and repeated by the handler
+		if len(stream) > 2 {
+			var cuts []int
+			for m := 1 + rng.Intn(5); m > 0; m-- {
+				cuts = append(cuts, 1+rng.Intn(len(stream)-1))
+			}
+			sort.Ints(cuts)
+			obs, ok := ch.runStreamCancel(c, env, t, stream, cuts, cs)
+			if !ok {
+				continue
+			}
+			c.Count("streams_run", 1)
+			c.Eval(fmt.Sprintf("%v r%d t%v cancelled reads", t.OIDs, len(t.Rows), t.Trailer), true)
+			if !ch.checkRows(c, t, obs, len(t.Rows), "eof", "pieces in lock-step, the waiting Read cancelled after each and repeated", cs) {
+				continue
+			}
+			if obs.Reply != "TGCZZ" {
+				c.Violate("reply", "COPY cycle transcript "+obs.Reply, "lock-step with cancelled reads: want TGCZZ", cs)
+				continue
+			}
 		}
 		// random multi-cuts
 		okR := true
